@@ -1458,7 +1458,12 @@ static int cfg_parse_internal(cfg_t *cfg, int level, int force_state, cfg_opt_t 
 				goto error;
 			}
 
-			opt = cfg_getopt(cfg, cfg_yylval);
+			/* in a free-form (key=value) section a name is a key, whatever
+			 * it looks like; elsewhere it may be a path into a section */
+			if (is_set(CFGF_KEYSTRVAL, cfg->flags) && !is_set(CFGF_IGNORE_UNKNOWN, cfg->flags))
+				opt = *cfg_yylval ? cfg_getopt_leaf(cfg, cfg_yylval) : NULL;
+			else
+				opt = cfg_getopt(cfg, cfg_yylval);
 			if (!opt) {
 				if (is_set(CFGF_IGNORE_UNKNOWN, cfg->flags)) {
 					state = 10;
